@@ -164,8 +164,8 @@ Definition byte_code (L : list Z -> list Z) (A : list Z) (b : Z) : Z :=
   match encode_flat L A [b] with Ok [k] => k | EncErr _ => 255 | _ => -1 end.
 
 (* ====================================================================== which variant is in /repo *)
-Definition cur_lower : list Z -> list Z := lower_pinned.     (* switch to lower_fixed with notes/C06.fix-1.diff *)
-Definition cur_rule : rule := RPinned.                       (* switch to RFixed with notes/C06.fix-2.diff *)
+Definition cur_lower : list Z -> list Z := lower_fixed.     (* switch to lower_fixed with notes/C06.fix-1.diff *)
+Definition cur_rule : rule := RFixed.                       (* switch to RFixed with notes/C06.fix-2.diff *)
 
 (* the predefined alphabets (constructor strings of alphabet_encoding.py:105-125) *)
 Definition predefined : list (list Z) :=
